@@ -192,7 +192,9 @@ def run(repo, chk):
 
     # operator typing matrix over operand types
     numeric = {DT.INT, DT.BYTE}
-    optypes = [DT.INT, DT.BYTE, DT.BOOL, DT.STRING, AT(DT.INT, False), AT(DT.BYTE, True)]
+    # `empty` (the type of a call of a function that returns nothing) is an operand of no operator: the generator has no
+    # value to load for it (EmptyAccessor raises InternalCompilerError)
+    optypes = [DT.INT, DT.BYTE, DT.BOOL, DT.STRING, AT(DT.INT, False), AT(DT.BYTE, True), DT.EMPTY]
     truthy = {DT.INT, DT.BYTE, DT.BOOL, DT.STRING, AT(DT.INT, False), AT(DT.BYTE, True)}
 
     def accepts(cls, *operands):
@@ -220,7 +222,7 @@ def run(repo, chk):
                     chk.fail('C07.K2', f'{D.name(a)} {ns[cls].token.value} {D.name(b)}', f'{"accepted" if ok else "rejected"} (expected '
                              f'{"accept" if want else "reject"}: every value has a truth value)', 'hidc/ast/operators.py')
             ok, r = accepts('Speculation', pa, pb)
-            want = a in (DT.INT, DT.BYTE, DT.BOOL) and expected_coercible(D, b, a)
+            want = a in (DT.INT, DT.BYTE, DT.BOOL) and b != DT.EMPTY and expected_coercible(D, b, a)
             if ok != want or (ok and r.type != a):
                 chk.fail('C07.K2', f'{D.name(a)} ?? {D.name(b)}', f'{"accepted" if ok else "rejected"}; expected {"accept" if want else "reject"} '
                          '(left int/byte/bool, right coercible to the left type)', 'hidc/ast/operators.py')
